@@ -2973,11 +2973,16 @@ class MemoryObjectStore(PackCapableObjectStore):
                     # ``add_thin_pack`` already validates via
                     # ``PackStreamCopier.verify``; do the equivalent here.
                     p.check()
-                    for obj in PackInflater.for_pack_data(p, self.get_raw):
-                        self.add_object(obj)
+                    # Resolve the whole pack before adding anything: a later
+                    # entry may still fail (missing delta base, bad delta,
+                    # object that does not parse), and a failed commit must
+                    # not leave the objects that preceded it in the store.
+                    objs = list(PackInflater.for_pack_data(p, self.get_raw))
                 finally:
                     p.close()
                     f.close()
+                for obj in objs:
+                    self.add_object(obj)
             else:
                 f.close()
 
